@@ -112,7 +112,7 @@ Rename(i, p2, n2) ==
     /\ LET vs == ChildNamed(p2, n2)
            v == IF vs = {} THEN 0 ELSE CHOOSE x \in vs : TRUE IN
        /\ (v # 0 => (node[v].k = node[i].k /\ (IsDir(v) => Children(v) = {})))      \* replace: same kind, empty dir
-       /\ PacingOK_Touch(i) /\ ~BelowHot(p2) /\ (v = 0 => <<p2, n2>> \notin hotN \/ i \in hotD)
+       /\ PacingOK_Touch(i) /\ ~BelowHot(p2) /\ (<<p2, n2>> \notin hotN \/ i \in hotD)   \* no entry is moved onto a hot name
        /\ (v # 0 => PacingOK_Touch(v))
        /\ node' = [j \in Ino |-> IF j = i THEN [node[i] EXCEPT !.par = p2, !.nm = n2]
                                  ELSE IF j = v THEN Free ELSE node[j]]
